@@ -681,11 +681,8 @@ class C17(Check):
     # route dev: authorize_signer through adm_ledger.main() against a UI device
     # =========================================================================
     def seams(self, world, extra=()):
-        return [(self.H, "getDongle", world.get_dongle), (self.HT, "getDongle", world.get_dongle),
-                (self.H, "hid", HidStub), (self.dongle_eth, "getDongle", world.get_dongle),
-                (self.dongle_admin, "getDongle", world.get_dongle),
-                (self.misc, "time", opstub.NoSleep()),
-                (self.misc, "getpass", self.no_getpass)] + list(extra)
+        # library-level seams: hold for `from x import y`, `import x; x.y(...)` and renamed imports
+        return opstub.seam_dongle(world.get_dongle) + opstub.seam_getpass(self.no_getpass) + list(extra)
 
     @staticmethod
     def no_getpass(prompt=""):
@@ -919,7 +916,7 @@ class C17(Check):
     # route signapp: the authorization generator through main()
     # =========================================================================
     def run_signapp(self, argv, world=None, stream="c17-urandom"):
-        patches = [(os, "urandom", opstub.ByteStream(stream))]
+        patches = opstub.seam_urandom(opstub.ByteStream(stream))
         if world is not None:
             patches += self.seams(world)
         return opstub.run_main(self.signapp.main, ["signapp.py"] + argv, patches=patches)
@@ -986,7 +983,7 @@ class C17(Check):
         text = ref_text(h32, ri[1])
         if not a.out:
             want = ref_printable(ref_message(text))
-            if want not in r.out.split("\n"):
+            if want not in r.out:
                 self.viol(vs, "text", "signapp-message-printed:%s" %
                           (a.iname if ri[0] == "open" else "iter-valid"), "signapp_message", args,
                           {"stdout": r.out[-300:]}, {"line": want})
